@@ -22,6 +22,7 @@ mod c07;
 mod c08;
 mod c09;
 mod c10;
+mod c11;
 mod c19;
 mod codec;
 
@@ -62,6 +63,7 @@ registry! {
     "C08" => c08::C08,
     "C09" => c09::C09,
     "C10" => c10::C10,
+    "C11" => c11::C11,
 }
 
 fn parse_tier(s: &str) -> Tier {
